@@ -74,7 +74,10 @@ type KnownFinding struct {
 	What       string `json:"what"`
 	Witness    string `json:"witness"`
 	Region     string `json:"region,omitempty"` // spec expression over the function's parameters: where the obligation is known to fail
-	Status     string `json:"status"`           // open | fixed
+	// Via: call sites (callee#ordinal, in the function of the obligation) whose traversal makes the obligation fail: the
+	// obligation is known to fail on paths through one of them and must still be proved on all other paths
+	Via    []string `json:"via,omitempty"`
+	Status string   `json:"status"` // open | fixed
 	Commit     string `json:"commit,omitempty"`
 }
 
@@ -94,7 +97,7 @@ var activeFindings []KnownFinding
 func openFinding(prop, ob string) *KnownFinding {
 	for i := range activeFindings {
 		f := &activeFindings[i]
-		if f.Status == "open" && f.Obligation == ob && (prop == "" || f.Property == prop) {
+		if f.Status == "open" && (f.Obligation == ob || (len(f.Via) > 0 && f.Obligation == instSuffix.ReplaceAllString(ob, ""))) && (prop == "" || f.Property == prop) {
 			return f
 		}
 	}
@@ -296,15 +299,21 @@ func finishCheck(o checkOpts, results []*funcResult, e *Engine, problems []strin
 	solverMs := int64(0)
 	bySolver := map[string]int{}
 	var knownLines []string
+	kfAllUnsat := map[string]bool{}
+	var kfOrder []*KnownFinding
 	for _, ob := range all {
 		solverMs += ob.Ms
 		if ob.kfUnrestricted {
 			f := openFinding(o.prop, ob.kfName)
 			if f != nil {
-				if ob.Result == "unsat" {
-					knownLines = append(knownLines, fmt.Sprintf("KNOWN-FINDING: property=%s %s — %s (note: the unrestricted obligation now discharges; the finding may be fixed)", o.prop, f.Obligation, f.What))
-				} else {
-					knownLines = append(knownLines, fmt.Sprintf("KNOWN-FINDING: property=%s %s — %s", o.prop, f.Obligation, f.What))
+				// one line per finding: an obligation with several instances (#k) has one unrestricted form each, and the
+				// finding stands as long as any of them fails
+				if _, seen := kfAllUnsat[f.Obligation]; !seen {
+					kfAllUnsat[f.Obligation] = true
+					kfOrder = append(kfOrder, f)
+				}
+				if ob.Result != "unsat" {
+					kfAllUnsat[f.Obligation] = false
 				}
 			}
 			continue
@@ -431,6 +440,13 @@ func finishCheck(o checkOpts, results []*funcResult, e *Engine, problems []strin
 		}
 		fmt.Printf("%s\n", line)
 		fmt.Printf("  obligation: %s\n  reason: %s\n", v.Obligation, v.Reason)
+	}
+	for _, f := range kfOrder {
+		l := fmt.Sprintf("KNOWN-FINDING: property=%s %s — %s", o.prop, f.Obligation, f.What)
+		if kfAllUnsat[f.Obligation] {
+			l += " (note: the unrestricted obligation now discharges; the finding may be fixed)"
+		}
+		knownLines = append(knownLines, l)
 	}
 	for _, l := range knownLines {
 		fmt.Println(l)
